@@ -4,8 +4,11 @@ import Bluebell.Eid
 # Model of `XmlGenerator.item_to_xml_*` (xml.py): dict tree → element tree
 
 `Err` is the class of the exception the real code raises. The generator state (`GenState`) is the
-part of an `XmlGenerator` object that survives a call: the `IdGenerator` maps and the
-`attachment_names` stack. A failing call returns the state it leaves behind.
+part of an `XmlGenerator` object that survives a call: the `IdGenerator` maps. A failing call returns
+the state it leaves behind. The `attachment_names` stack of the Python code is pushed before and popped
+(in a `finally`) after the children of an attachment are converted; it is modelled as the parameter
+`parent` (the top of that stack) handed down the recursion. That the `finally` really restores the stack
+on every path is tied behaviourally (histories with calls that raise inside attachments).
 -/
 namespace Bluebell
 
@@ -28,7 +31,6 @@ def Err.name : Err → String
 
 structure GenState where
   ids : IdState := {}
-  attNames : List String := []   -- `attachment_names`, last pushed first
 deriving Repr, Inhabited
 
 /-- FRBR URI strings supplied by cobalt (parameters of the model): `FRBRthis` of work / expression /
@@ -91,17 +93,16 @@ def groupByBool {α} (key : α → Bool) : List α → List (Bool × List α)
 def checkHier (i : Item) : Bool := i.typ = "hier" || i.name? = some "crossHeading"
 
 /-- `get_attachment_name` -/
-def attachmentName (st : GenState) (item : Item) : GenState × String :=
-  let parent := st.attNames.head?
+def attachmentName (parent : Option String) (st : GenState) (item : Item) : GenState × String :=
   let name := ((item.attribs.getD []).lookup "name").getD "attachment"
   let key := match parent with | some p => p ++ "__" ++ name | none => name
   let (ids', num) := st.ids.incr "__attachments" key
   let full := match parent with | some p => p ++ "/" ++ name ++ "_" ++ toString num | none => name ++ "_" ++ toString num
-  ({ st with ids := ids' }, full)
+  ({ ids := ids' }, full)
 
 mutual
 /-- `item_to_xml(item)`; returns the result and the state left behind -/
-def itemToXml (u : Uris) : Nat → Item → GenState → Except Err Xml × GenState
+def itemToXml (u : Uris) (parent : Option String) : Nat → Item → GenState → Except Err Xml × GenState
   | 0, _, st => (.error .other, st)
   | _ + 1, .text v, st => (.ok (.text v), st)
   | fuel + 1, .node typ name attribs children num heading subheading frm attAttribs, st =>
@@ -116,11 +117,11 @@ def itemToXml (u : Uris) : Nat → Item → GenState → Except Err Xml × GenSt
       match r0 with
       | (.error e, st) => (Except.error e, st)
       | (.ok a, st) =>
-        let (rh, st) := optList u fuel "heading" heading st
+        let (rh, st) := optList u parent fuel "heading" heading st
         match rh with
         | .error e => (.error e, st)
         | .ok b =>
-          let (rs, st) := optList u fuel "subheading" subheading st
+          let (rs, st) := optList u parent fuel "subheading" subheading st
           match rs with
           | .error e => (.error e, st)
           | .ok c => (.ok (a ++ b ++ c), st)
@@ -128,9 +129,9 @@ def itemToXml (u : Uris) : Nat → Item → GenState → Except Err Xml × GenSt
     | "hier" =>
       let (rk, st) :=
         if kidsI.all (fun k => !checkHier k) then
-          let (r, st) := itemsToXml u fuel kidsI st
+          let (r, st) := itemsToXml u parent fuel kidsI st
           (r.bind fun ks => (mkElem "content" [] ks).map (fun x => [x]), st)
-        else hierGroups u fuel (groupByBool checkHier kidsI) false st
+        else hierGroups u parent fuel (groupByBool checkHier kidsI) false st
       match rk with
       | .error e => (.error e, st)
       | .ok kids =>
@@ -143,7 +144,7 @@ def itemToXml (u : Uris) : Nat → Item → GenState → Except Err Xml × GenSt
       match rp with
       | .error e => (.error e, st)
       | .ok p =>
-        let (rk, st) := itemsToXml u fuel kidsI st
+        let (rk, st) := itemsToXml u parent fuel kidsI st
         match rk with
         | .error e => (.error e, st)
         | .ok ks =>
@@ -157,38 +158,37 @@ def itemToXml (u : Uris) : Nat → Item → GenState → Except Err Xml × GenSt
         let (rf, st) : Except Err (List Xml) × GenState :=
           match frm with
           | some f =>
-            let (r, st) := itemsToXml u fuel f st
+            let (r, st) := itemsToXml u parent fuel f st
             (r.bind fun ks => (mkElem "from" [] ks).map (fun x => [x]), st)
           | none => (.ok [], st)
         match rf with
         | .error e => (.error e, st)
         | .ok f =>
-          let (rk, st) := itemsToXml u fuel kidsI st
+          let (rk, st) := itemsToXml u parent fuel kidsI st
           match rk with
           | .error e => (.error e, st)
           | .ok ks => (mkElem name attrs (p ++ f ++ ks), st)
     | "content" | "inline" =>
-      let (rk, st) := itemsToXml u fuel kidsI st
+      let (rk, st) := itemsToXml u parent fuel kidsI st
       (rk.bind fun ks => mkElem name attrs ks, st)
     | "marker" => (mkElem name attrs [], st)
     | "element" =>
       if name = "attachment" then
-        let (st, attName) := attachmentName st (.node typ name attribs children num heading subheading frm attAttribs)
-        let (rh, st) := optList u fuel "heading" heading st
+        let (st, attName) := attachmentName parent st (.node typ name attribs children num heading subheading frm attAttribs)
+        let (rh, st) := optList u parent fuel "heading" heading st
         match rh with
         | .error e => (.error e, st)
         | .ok h =>
-          let (rs, st) := optList u fuel "subheading" subheading st
+          let (rs, st) := optList u parent fuel "subheading" subheading st
           match rs with
           | .error e => (.error e, st)
           | .ok s =>
-            let st := { st with attNames := attName :: st.attNames }
             -- make_meta(attachment_frbr_uri(name)) needs a FRBR URI
-            if !u.present then (.error .attributeError, { st with attNames := st.attNames.drop 1 })
+            if !u.present then (.error .attributeError, st)
             else
               let m := metaStub (u.workBase ++ "/!" ++ attName) (u.exprBase ++ "/!" ++ attName) (u.manifBase ++ "/!" ++ attName)
-              let (rk, st) := itemsToXml u fuel kidsI st
-              let st := { st with attNames := st.attNames.drop 1 }
+              -- children are converted with this attachment on top of the `attachment_names` stack
+              let (rk, st) := itemsToXml u (some attName) fuel kidsI st
               match rk with
               | .error e => (.error e, st)
               | .ok ks =>
@@ -196,37 +196,37 @@ def itemToXml (u : Uris) : Nat → Item → GenState → Except Err Xml × GenSt
                 | .error e => (.error e, st)
                 | .ok doc => (mkElem "attachment" (attAttribs.getD []) (h ++ s ++ [doc]), st)
       else
-        let (rk, st) := itemsToXml u fuel kidsI st
+        let (rk, st) := itemsToXml u parent fuel kidsI st
         (rk.bind fun ks => mkElem name attrs ks, st)
     | _ => (.error .attributeError, st)
 
 /-- `m.<tag>(*(item_to_xml(k) for k in items))` when the list is present and non-empty -/
-def optList (u : Uris) : Nat → String → Option (List Item) → GenState → Except Err (List Xml) × GenState
+def optList (u : Uris) (parent : Option String) : Nat → String → Option (List Item) → GenState → Except Err (List Xml) × GenState
   | 0, _, _, st => (.error .other, st)
   | fuel + 1, tag, items, st =>
     match items with
     | some (i :: is) =>
-      let (r, st) := itemsToXml u fuel (i :: is) st
+      let (r, st) := itemsToXml u parent fuel (i :: is) st
       (r.bind fun ks => (mkElem tag [] ks).map (fun x => [x]), st)
     | _ => (.ok [], st)
 
-def itemsToXml (u : Uris) : Nat → List Item → GenState → Except Err (List Xml) × GenState
+def itemsToXml (u : Uris) (parent : Option String) : Nat → List Item → GenState → Except Err (List Xml) × GenState
   | 0, _, st => (.error .other, st)
   | _ + 1, [], st => (.ok [], st)
   | fuel + 1, i :: is, st =>
-    match itemToXml u fuel i st with
+    match itemToXml u parent fuel i st with
     | (.error e, st) => (.error e, st)
     | (.ok x, st) =>
-      match itemsToXml u fuel is st with
+      match itemsToXml u parent fuel is st with
       | (.error e, st) => (.error e, st)
       | (.ok xs, st) => (.ok (x :: xs), st)
 
 /-- the intro / hier / hcontainer / wrapUp grouping of `item_to_xml_hier` -/
-def hierGroups (u : Uris) : Nat → List (Bool × List Item) → Bool → GenState → Except Err (List Xml) × GenState
+def hierGroups (u : Uris) (parent : Option String) : Nat → List (Bool × List Item) → Bool → GenState → Except Err (List Xml) × GenState
   | 0, _, _, st => (.error .other, st)
   | _ + 1, [], _, st => (.ok [], st)
   | fuel + 1, (isHier, group) :: rest, seenHier, st =>
-    let (rg, st) := itemsToXml u fuel group st
+    let (rg, st) := itemsToXml u parent fuel group st
     match rg with
     | .error e => (.error e, st)
     | .ok g =>
@@ -239,7 +239,7 @@ def hierGroups (u : Uris) : Nat → List (Bool × List Item) → Bool → GenSta
       match here with
       | .error e => (.error e, st)
       | .ok h =>
-        let (rr, st) := hierGroups u fuel rest (seenHier || isHier) st
+        let (rr, st) := hierGroups u parent fuel rest (seenHier || isHier) st
         match rr with
         | .error e => (.error e, st)
         | .ok r => (.ok (h ++ r), st)
